@@ -97,7 +97,7 @@ func c10Specs(tier string, seed int) []c10Spec {
 							e.Kind = c10Ferts[(n+j)%len(c10Ferts)]
 							e.Amt = float64(20 + 10*((n+j)%5))
 						case "till":
-							e.Amt = float64([]int{10, 20, 30, 5}[(n+j)%4])
+							e.Amt = float64([]int{10, 20, 0, 30, 5}[(n+j)%5]) // depth 0: nothing is mixed and no event is written, the entry still takes its turn
 							e.Kind = fmt.Sprint((n + j) % 2)
 						case "irr":
 							e.Amt = float64(5 + 5*((n+j)%4))
@@ -477,6 +477,9 @@ func c10RunSchedule(c *mc.Ctx, sp c10Spec, what string, fert, till, irr []c10Ev,
 			if !x.judge {
 				// execution day after the end date: not judged; but an earlier execution would be wrong only if before its date
 				continue
+			}
+			if kind == "tillage" && x.ev.Amt == 0 {
+				continue // a tillage of depth 0 leaves no event; the entries after it are judged as usual
 			}
 			cls := ""
 			if x.late {
